@@ -55,9 +55,10 @@ func vhBuildC20(g *vhDigits, depth, maxw int, label string, nodes *[]Stack) Stac
 			c.condition.cfg.opt = cfgFlag(nondetUint16()) & parens
 			el = c
 		case 3, 4:
-			el = vhBuildC20(g, depth-1, maxw, name, nodes)
+			// native, alias, pointer to alias, pointer to native
+			el = vhWrapStack(vhBuildC20(g, depth-1, maxw, name, nodes), []int{0, 0, 1, 3, 4}[g.next(5)])
 		case 5:
-			c := Cond("k"+name, Ne, vhBuildC20(g, depth-1, maxw, name, nodes))
+			c := Cond("k"+name, Ne, vhWrapStack(vhBuildC20(g, depth-1, maxw, name, nodes), []int{0, 0, 1, 3}[g.next(4)]))
 			c.condition.cfg.opt = cfgFlag(nondetUint16()) & parens
 			el = c
 		}
@@ -257,7 +258,22 @@ func VH_C20_Named(p []int) {
 	}
 }
 
+// vhForms records, for every Stack instance held somewhere in the tree x, the
+// dynamic type of the value holding it.
+func vhForms(x any, out map[*stack]int) {
+	if s, ok := vhStackOf(x); ok {
+		out[s.stack] = vhFormOf(x)
+		for i := 1; i < len(*s.stack); i++ {
+			vhForms((*s.stack)[i], out)
+		}
+	} else if c, ok := vhCondOf(x); ok {
+		vhForms(c.Expression(), out)
+	}
+}
+
 func vhCheckReveal(root Stack, nodes []Stack) {
+	forms := map[*stack]int{}
+	vhForms(root, forms)
 	leaves := vhLeaves(root, nil)
 	depth := vhDepth(root)
 	nf := vhNormal(root)
@@ -286,6 +302,15 @@ func vhCheckReveal(root Stack, nodes []Stack) {
 		}
 	}
 	vhNFSame(nf, vhNormal(root), "same-normal-form")
+	// what survives is still the value it was: an alias or a pointer is not
+	// exchanged for the native value it converts to
+	after2 := map[*stack]int{}
+	vhForms(root, after2)
+	for _, n := range nodes {
+		if f, still := after2[n.stack]; still && n.stack != root.stack {
+			verifAssert(f == forms[n.stack], "element-keeps-its-type")
+		}
+	}
 	// locks are all released
 	for _, n := range nodes {
 		if cfg, _ := n.config(); cfg != nil {
